@@ -627,6 +627,7 @@ class Sugar:
             return B.block([], B.goto(real_head))
         head = _LazyHead(_landing)
         outer_head = head
+        lazy_fm = []
         end_bb = on_end()
         x = B.local(item_hint)
         # the chain of adaptor steps, built back to front
@@ -658,8 +659,11 @@ class Sugar:
             if nm == "flat_map":
                 # for each outer item the closure yields an iterator; its items flow on downstream and its
                 # end continues with the next outer item: a nested pull loop
-                if (head is not outer_head) or getattr(self, "_lazy_pull", False):
-                    raise _Unsupported("flat_map below another flat_map / in a lazily pulled pipeline")
+                if head is not outer_head:
+                    raise _Unsupported("flat_map below another flat_map")
+                lazy = getattr(self, "_lazy_pull", False)
+                if lazy and (i != 0 or lazy_fm):
+                    raise _Unsupported("lazily pulled flat_map that is not the first adaptor")
                 it_l = B.local("?")
                 ph = B.block([], None)
                 entry = self.call_closure(B, clo, [M(cur)], P(it_l), ph, dep, stack)
@@ -671,8 +675,28 @@ class Sugar:
                 if any(a[0] == "flat_map" for a in adaptors2):
                     raise _Unsupported("nested flat_map")
                 bt2 = strip_ref(self.locals[base2["l"]].get("ty") or "?")
-                ih = self._pull(B, base2, adaptors2, lambda v, h2: build(i + 1, v, h2), lambda: head.new(), dep, stack, bt2)
+                if not lazy:
+                    ih = self._pull(B, base2, adaptors2, lambda v, h2: build(i + 1, v, h2), lambda: head.new(), dep, stack, bt2)
+                    self.blocks[ph]["term"] = B.goto(ih)
+                    return entry
+                # pulled lazily (`for x in it.flat_map(f)`): the inner iterator lives across pulls. A flag
+                # says whether one is active; the pull resumes there, else takes the next outer item.
+                act = B.local("bool")
+                self.locals[act]["synthetic"] = True
+                # the flag starts false where the adaptor is created (executed once, before the loop)
+                for blk in self.blocks:
+                    if blk.get("term") is ct:
+                        blk["stmts"].append(B.assign(P(act), B.use(B.const_bool(False))))
+                self._lazy_pull = False
+                try:
+                    ih = self._pull(B, base2, adaptors2, lambda v, h2: build(i + 1, v, h2),
+                                    lambda: B.block([B.assign(P(act), B.use(B.const_bool(False)))], B.goto(head.new())), dep, stack, bt2)
+                finally:
+                    self._lazy_pull = True
+                self.blocks[ph]["stmts"].append(B.assign(P(act), B.use(B.const_bool(True))))
                 self.blocks[ph]["term"] = B.goto(ih)
+                self.blocks[ih]["lazy_inner"] = True
+                lazy_fm.append((act, ih))
                 return entry
             if nm in ("filter", "take_while", "skip_while", "inspect"):
                 rr = B.local("&?")
@@ -709,6 +733,9 @@ class Sugar:
             "trait": "std::iter::Iterator", "self_ty": base_ty, "targs": [base_ty], "res": "std::iter::Iterator::next",
             "args": [M(r)], "arg_tys": ["&mut " + base_ty], "dest": P(n), "dest_ty": "std::option::Option<%s>" % item_hint,
             "t": sw, "span": B.span, "fn_span": B.span, "synthetic": True}
+        if lazy_fm:
+            act, ih = lazy_fm[0]
+            return B.block([], B.switch(C(act), [0], [real_head], ih, op_ty="bool"))
         return real_head
 
     def expand_iter(self, bi, dep, stack):
